@@ -2,8 +2,11 @@
      enforcer_cached.go          CachedEnforcer          (variant Plain)
      enforcer_cached_synced.go   SyncedCachedEnforcer    (variant Synced)
      persist/cache/default-cache.go, cache_sync.go       (one sequential map model for both)
-   plus the short specification vocabulary (invalidates, no_collision, respects_for) and the
-   test fixture used by the correspondence check (the basic ACL model as underlying enforcer).
+   plus the short specification vocabulary (invalidates, quiet, no_collision, respects_for), the
+   guards on key texts (sep_safe for strings, ctx_req for requests carrying an EnforceContext) and
+   the two test fixtures used by the correspondence check (the basic ACL model, acl_..., and a
+   model with several request / policy / effect / matcher sections selected by a leading
+   EnforceContext, cx_..., as underlying enforcers).
    Definitions only; proofs are in CacheProofs.v.
 
    The underlying enforcer is abstract: a state type U, a decision function
